@@ -313,6 +313,9 @@ def flow_family(R, rng):
         dumpgen.elf_note(b"VMCOREINFO", 0, vm)
     p1 = R.path("c16-prstatus.elf"); dumpgen.write_elf(p1, [dict(pfn=1, npages=2, voff=0xffff880000000000)], notes=notes)
     p2 = R.path("c16-xenprstatus.elf"); dumpgen.write_elf_sections(p2)
+    ddesc = {p1: "dumpgen.write_elf(path, [dict(pfn=1, npages=2, voff=0xffff880000000000)], notes=elf_note(b'CORE', 1, prstatus_x86_64(1)) + "
+                 "elf_note(b'CORE', 1, prstatus_x86_64(2)) + elf_note(b'VMCOREINFO', 0, b'OSRELEASE=5.4.0-verif\\nPAGESIZE=4096\\n'))",
+             p2: "dumpgen.write_elf_sections(path)   # xc_core ELF with a .xen_prstatus section"}
     regs1 = ["rip", "rsp", "rax", "r15", "rbp", "cs", "fs_base"]
     regs2 = ["cr3", "cr0", "cs", "dr0", "rip", "rsp"]
     for path, blobkey, regs, other in ((p1, "PRSTATUS", regs1, "cpu.1.reg.rip"), (p2, "XEN_PRSTATUS", regs2, None)):
@@ -354,6 +357,10 @@ def flow_family(R, rng):
         dumpgen.write_elf(q, [dict(paddr=0x1000, filesz=8192, memsz=8192, voff=0xffff880000000000, data=bytes(data))], notes=nn)
         if trunc:
             os.truncate(q, trunc)
+        ddesc[q] = ("x86_64 ELF, one PT_LOAD paddr=0x1000 filesz=memsz=8192 (bytes 'x', NUL-terminated strings at 0x1020 and 0x2ff0), "
+                    "notes: %sVMCOREINFO; %s -- the string is %s" % (
+                        "XEN_ELFNOTE_CRASH_INFO (type 0x1000001, name Xen) with xen_extra_version=%#x, " % extra if extra is not None else "",
+                        "file truncated to %#x bytes" % trunc if trunc else "file complete", what))
         for ostype in ("linux", "xen"):
             L.append("open " + q)
             if extra is not None:
@@ -365,6 +372,17 @@ def flow_family(R, rng):
         # the same call with the n-th allocation failing (monitor only)
         for n in range(1, 9 if quick else 16):
             L += ["open " + q, "failat %d" % n, "setstr addrxlat.ostype " + rng.choice(["linux", "xen"])]
+    # ---- a dump whose utsname is found through init_uts_ns: setting the OS type fills linux.uts.*; every allocation of that fails in turn
+    vmci = b"OSRELEASE=4.4.156-test\nPAGESIZE=4096\nSYMBOL(init_uts_ns)=ffffffff81e152e0\n"
+    uts = b"\0" * 0x2e0 + struct.pack("<I", 6) + b"".join(x.ljust(65, b"\0") for x in
+          (b"Linux", b"demo-node", b"4.4.156-test", b"#1 SMP Wed Oct 10 06:29:13 UTC 2018", b"x86_64", b"(none)"))
+    pu = R.path("c16-uts-oom.elf")
+    dumpgen.write_elf(pu, [dict(paddr=0x1e15000, filesz=4096, memsz=4096, voff=0xffffffff81e15000 - 0x1e15000, data=uts)],
+                      notes=dumpgen.elf_note(b"VMCOREINFO", 0, vmci))
+    ddesc[pu] = ("x86_64 ELF, one PT_LOAD paddr=0x1e15000 vaddr=0xffffffff81e15000 holding struct uts_namespace at +0x2e0 "
+                 "(Linux / demo-node / 4.4.156-test / ... ), VMCOREINFO with SYMBOL(init_uts_ns)=ffffffff81e152e0")
+    for n in (range(1, 13) if quick else range(1, 60)):
+        L += ["open " + pu, "failat %d" % n, "setstr addrxlat.ostype linux", "get linux.uts.release"]
     # ---- opening the dumps with notes with the n-th allocation failing (monitor only)
     for path in (p1, p2):
         for n in (rng.sample(range(1, 120), 12) if quick else range(1, 160)):
@@ -377,7 +395,10 @@ def flow_family(R, rng):
         if " C16:" in o.split(" | ")[0] or "UNDOCUMENTED" in o.split(" | ")[0]:
             j = [k for k, l in enumerate(L) if not (l.startswith("M ") or l.startswith("failat "))][i]
             k0 = max(k for k in range(j + 1) if L[k].startswith("open "))
-            fail = ("public call '%s' answered '%s'" % (calls[i][:100], o[:200]), dict(stream="flow", input="\n".join(L[k0:j + 1])))
+            path = L[k0][5:]
+            fail = ("public call '%s' answered '%s' (dump: %s)" % (calls[i][:100], o[:200], ddesc.get(path, "?")[:300]),
+                    dict(stream="flow", input="\n".join(L[k0:j + 1]).replace(os.path.dirname(path) + "/", ""), dump=ddesc.get(path),
+                         dump_bytes_hex=open(path, "rb").read().hex() if os.path.getsize(path) <= 16384 else None))
             break
     if fail is None and (rc != 0 or len(obs) != len(calls)):
         k = min(len(obs), len(calls) - 1)
